@@ -165,3 +165,22 @@ Lemma old_witnesses_now_fine :
     play a (enforced_spec a cfg_idle10s) (w_idle (enforced cfg_idle10s)) = Fine /\
     play a (enforced_spec a cfg_streams50) (w_s_bidi a) = Fine) advenf_all_specs.
 Proof. unfold advenf_all_specs. repeat constructor. Qed.
+
+(** Rotation at the advertised connection ID limit (RFC 9000 5.1.1): the peer fills the limit,
+    then replaces the ID in use (Retire Prior To), also after the client's own rotation, also
+    retiring several at once: conformant, and played to the end for every parrot. *)
+Definition cid_rotation_history (a : limits) : list ev :=
+  [EvCID (l_cid a - 1); EvCIDRotate 1; EvCIDRotate 1; EvRetireCID; EvCID 1; EvCIDRotate 1; EvCIDRotate (l_cid a); EvCID (l_cid a - 1)].
+
+Lemma cid_rotation_fine :
+  Forall (fun kv => let a := advertised kv in play a (enforced_spec a default_config) (cid_rotation_history a) = Fine)
+         advenf_all_specs.
+Proof. unfold advenf_all_specs. repeat constructor. Qed.
+
+(* a client that counted the new ID before retiring the one in use would be one short: the
+   same step against an enforced limit of advertised-1 *)
+Lemma cid_rotation_needs_full_limit :
+  let a := advertised advenf_spec_Firefox_116A in
+  play a (mkL (l_max_data a) (l_sd_bl a) (l_sd_br a) (l_sd_uni a) (l_s_bidi a) (l_s_uni a) (l_cid a - 1)
+              (l_dgram a) (l_idle a) (l_udp a)) [EvCID (l_cid a - 2); EvCID 1] = Err ConnectionIDLimitError.
+Proof. reflexivity. Qed.
